@@ -423,8 +423,13 @@ func zzWaitUntil(fr *frame, args []value) value {
 	pred := args[0]
 	m.schedPoint("waituntil")
 	m.block("WaitUntil", func() bool {
-		b, ok := call(m, nil, 0, pred, nil).(bool)
-		return ok && b
+		switch r := call(m, nil, 0, pred, nil).(type) {
+		case bool:
+			return r
+		case *symv:
+			return m.branch(r.t)
+		}
+		return false
 	})
 	return nil
 }
